@@ -71,6 +71,9 @@ def task(t):
         bx.reset()
         return [seed, kind, d]
     prog = gen.generate(rnd)
+    if "use_core" in prog.features:
+        bx.use_real_core()      # as c20.task does; without it the outcome would depend on whether
+                                # an earlier task of this worker happened to install the module
     variant = gen.place_imports(prog, gen.random_variant(prog, rnd), rnd)
     files = gen.render(prog, variant)
     bx.clean_proj()
